@@ -744,9 +744,8 @@ func scanRingPNil(c *core.Ctx) []ob {
 			n++
 			key := fmt.Sprintf("RINGPNIL:%s#%s.%s", fkey, exprString(inner), sel.Sel.Name)
 			guarded := false
-			var child ast.Node = call
-			for p := pm[child]; p != nil; child, p = p, pm[p] {
-				if is, ok := p.(*ast.IfStmt); ok && is.Body == child && pPresenceTest(info, is.Cond) {
+			for _, h := range holdsAt(pm, call) {
+				if h.pos && pPresenceTest(info, h.cond) {
 					guarded = true
 				}
 			}
@@ -2063,9 +2062,8 @@ func scanPCount(c *core.Ctx) []ob {
 				be, isSum := unparen(a).(*ast.BinaryExpr)
 				raw := isSum && be.Op == token.ADD && strings.Contains(strings.ToLower(exprString(be.X)), "levelp")
 				guarded := false
-				var child ast.Node = call
-				for p := pm[child]; p != nil; child, p = p, pm[p] {
-					if is, ok := p.(*ast.IfStmt); ok && is.Body == child && pPresenceTest(info, is.Cond) {
+				for _, h := range holdsAt(pm, call) {
+					if h.pos && pPresenceTest(info, h.cond) {
 						guarded = true
 					}
 				}
